@@ -264,11 +264,77 @@ EXPLANATION = (
     "(callable / expression-string / float parameters, a condition, a mid-circuit measurement at a symbolic position, symbolic modes and shots) with stub "
     "simulation steps; the solver chooses the crash point (instruction index x stage: per-instruction validation, parameter resolution, simulation step). "
     "Obligation: a deep snapshot of the caller's objects taken before the call equals the snapshot afterwards on every path, and re-execution of the same "
-    "objects agrees with a fresh program."
+    "objects agrees with a fresh program. Native kernels (E-CX): pfaffian_cpp, permanent_cpp and permanent_laplace_cpp interpreted from clang's AST on a generic matrix leave every element of the "
+    "caller's shared buffers as it was."
 )
 
 
+# ---------------------------------------------------------------------------------------------- native kernels' input buffers (E-CX)
+def h_native_buffers(env, kernel, n):
+    """the numpy buffers that the bindings hand to the native kernels by shared memory (src/numpy_utils.hpp numpy_to_matrix:
+    no copy) are unchanged after the call: the kernel is interpreted from clang's AST of the current source on a generic
+    matrix and every element of the caller's buffers is compared with its value before the call, on every path."""
+    import numpy
+    from .. import xa, si, cx, core as _core
+    from . import cxcommon as cc
+    env.stubs += ["Matrix / Vector handles of src/matrix.hpp = native models sharing the caller's buffer", "reals stand in for doubles"]
+    if kernel == "pfaffian":
+        prog = cc.program("pfaffian")
+        env.functions += cc.fn_refs(prog, "pfaffian_cpp<double> (clang-14 AST)")
+        M = numpy.empty((n, n), dtype=object)
+        for i in range(n):
+            M[i, i] = 0
+            for j in range(i + 1, n):
+                v = env.real("a%d%d" % (i, j))
+                M[i, j] = v
+                M[j, i] = -v
+        before = [M[i, j] for i in range(n) for j in range(n)]
+        if env.mode == "sym":
+            fn = prog.find(None, "pfaffian_cpp", 1, pick="double (Matrix<double>")
+            buf = list(before)
+            it = cx.Interp(prog, env)
+            it.call(fn, [cx.Ref([cx.Mat(n, n, cx.Ptr(buf))], 0)])
+            after = buf
+        else:
+            cc.native_pfaffian(numpy.array(M, dtype=float))
+            after = cc.LAST["pfaffian_after"]
+        for k in range(n * n):
+            env.equal("caller's matrix element %d unchanged" % k, after[k], before[k])
+        return
+    rows, cols = {2: ((2, 1), (1, 2)), 3: ((2, 0, 1), (1, 1, 1))}[n]
+    A = env.cplx_mat("a", n)
+    before = [A[i, j] for i in range(n) for j in range(n)]
+    which = "permanent" if kernel == "permanent" else "laplace"
+    if kernel == "laplace":
+        cols = tuple(c + (1 if j == 0 else 0) for j, c in enumerate(cols))
+    prog = cc.program(which)
+    env.functions += cc.fn_refs(prog, "%s (clang-14 AST)" % ("permanent_cpp<double>" if which == "permanent" else "permanent_laplace_cpp<double>"))
+    if env.mode == "sym":
+        fn = prog.find(None, "permanent_cpp" if which == "permanent" else "permanent_laplace_cpp", 3, pick="complex<double>")
+        abuf, rbuf, cbuf = list(before), list(rows), list(cols)
+        it = cx.Interp(prog, env, hardware_concurrency=si.SI(env.ivar("n_threads", 1, 64), 32))
+        it.call(fn, [cx.Ref([cx.Mat(n, n, cx.Ptr(abuf))], 0), cx.Ref([cx.Mat(1, n, cx.Ptr(rbuf), True)], 0), cx.Ref([cx.Mat(1, n, cx.Ptr(cbuf), True)], 0)])
+    else:
+        hc = env.ivar("n_threads", 1, 64)
+        cc.native_permanent(numpy.array(A, dtype=complex), rows, cols, hc, "P" if which == "permanent" else "L")
+        abuf, rbuf, cbuf = cc.LAST["perm_after"]
+    for k in range(n * n):
+        env.equal("caller's matrix element %d unchanged" % k, abuf[k], before[k])
+    env.holds("caller's row / column multiplicities unchanged", list(rbuf) == list(rows) and list(cbuf) == list(cols))
+
+
+HARNESSES = {"native_buffers": h_native_buffers}
+
+
 def run(rep, tier, seed, opts):
+    from .. import core as _core
+    inst = [("native_buffers", {"kernel": k, "n": n}) for k, n in (("pfaffian", 2), ("pfaffian", 4), ("permanent", 2), ("permanent", 3), ("laplace", 2), ("laplace", 3))]
+    if not opts.get("only") or "native" in opts["only"]:
+        o = {"timeout_s": 60, "instance_timeout_s": 600, "seed": seed, "validation_points": 2, "path_budget": 200, "som_blowup": True}
+        for r in _core.run_instances(__name__, inst, o, jobs=opts.get("jobs")):
+            rep.add_instance_result(__name__, r)
+        if opts.get("only"):
+            return rep.finish(level="other", explanation=EXPLANATION)
     wsrc, conds = wrappers(tier)
     source = HEADER + "\n\n" + wsrc
     if opts.get("only"):
@@ -286,6 +352,7 @@ def run(rep, tier, seed, opts):
                   "callable parameter -> raises at the armed crash point (wrapped by _resolve_params into InvalidParameter)"]
     rep.bounds = {"instructions": 5, "modes": "symbolic in 0..3 on d=4", "crash index": "0..5", "stages": 4, "shots": "1..2 (failure), 1..3 (success)",
                   "parameter kinds": ["float", "callable", "expression string"],
-                  "outside": "numpy array parameters, TF/JAX tensors, native kernels' input buffers (see C04/E-LL), real simulation steps"}
+                  "native buffers": "pfaffian_cpp n = 2, 4; permanent_cpp / permanent_laplace_cpp on 2 and 3 modes (one multiplicity pattern each)",
+                  "outside": "numpy array parameters of instructions, TF/JAX tensors, torontonian kernels' buffers, real simulation steps"}
     ch.run_conditions(rep, source, conds, timeout_s=120, per_path=20, jobs=opts.get("jobs"))
     return rep.finish(level="other", explanation=EXPLANATION)
